@@ -99,6 +99,10 @@ type endPoint struct {
 	stream        Stream
 	handlers      []*Handler
 	handlersMutex sync.Mutex
+	// closed is set when the handlers are closed: an handler
+	// registered afterwards is closed at once (with closeErr).
+	closed   bool
+	closeErr error
 }
 
 // EndPointFinalizer creates a new EndPoint and let you process it
@@ -236,6 +240,10 @@ func (e *endPoint) closeWith(err error) error {
 	e.handlersMutex.Lock()
 	defer e.handlersMutex.Unlock()
 
+	if !e.closed {
+		e.closed = true
+		e.closeErr = err
+	}
 	for id, handler := range e.handlers {
 		if handler != nil {
 			go handler.closeWith(err)
@@ -270,6 +278,12 @@ func (e *endPoint) MakeHandler(f Filter, queue chan<- *Message, cl Closer) int {
 	newHandler := NewHandler(f, queue, cl)
 	e.handlersMutex.Lock()
 	defer e.handlersMutex.Unlock()
+	if e.closed {
+		// nobody will close this handler later: the connection
+		// is gone already.
+		go newHandler.closeWith(e.closeErr)
+		return -1
+	}
 	for i, handler := range e.handlers {
 		if handler == nil {
 			e.handlers[i] = newHandler
